@@ -29,9 +29,9 @@ Proof. exact no_space_empty_entry. Qed.
 Print Assumptions C07_no_space_line.
 
 (* The auditd half ("every auditd record line parses to the same audit message with or without
-   its trailing newline") is a contract of the third-party parser (auparse.Parse trims white
-   space); it is checked on the implementation by the harness (parser level) and is not a
-   theorem: see DESIGN.md, C07, Partial. *)
+   its trailing newline"): go-libaudit's line parser is inside the model (Model/Auparse.v, tied to
+   the real library by the auparse stage); the theorems C07_audit_* below prove the statement for
+   every byte string and every message-type table. *)
 
 Example C07_example :
   let c := {| c_node := s2l "n"; c_mid := s2l "m" |} in
@@ -101,3 +101,124 @@ Theorem C07_audit_line_unchanged_from_source :
         end).
 Proof. exact AuditIRTie.parse_gets_line_unchanged. Qed.
 Print Assumptions C07_audit_line_unchanged_from_source.
+
+(* ---------- the audit half: the parser itself (go-libaudit auparse.ParseLogLine, Model/Auparse.v) ----------
+   [type_of] is the library's message-type table, a parameter about which nothing is assumed.  The results
+   are equalities of the FULL outcome: the same message (type, seconds, milliseconds, sequence, offset,
+   RawData), the same error (errInvalidAuditHeader / errInvalidAuditMessageTypName), or - for both sides
+   alike - the outcome PUnmodelled (a byte >= 0x80 in the type-name position or at an end of the text behind
+   "msg=": strings.ToUpper / strings.TrimSpace leave ASCII; Model/Auparse.v says exactly when): the modelled
+   domain is closed under the paddings below. *)
+From Coq Require Import NArith ZArith.
+From AM Require Import Model.Auparse Proofs.AuparseNum Proofs.AuparseLemmas Proofs.AuparseAudit.
+
+(* EVERY line parses to the same result with or without its trailing newline *)
+Theorem C07_audit_newline : forall (type_of : str -> option BinNums.N) (l : str),
+  parse_log_line type_of (l ++ [nl]) = parse_log_line type_of l.
+Proof. exact parse_log_line_newline. Qed.
+Print Assumptions C07_audit_newline.
+
+(* ... and more generally with any suffix of ASCII white space (' ' \t \n \v \f \r; CR LF in particular) *)
+Theorem C07_audit_trailing_white_space : forall (type_of : str -> option BinNums.N) (l ws : str),
+  all_space ws = true -> parse_log_line type_of (l ++ ws) = parse_log_line type_of l.
+Proof. exact parse_log_line_trailing_ws. Qed.
+Print Assumptions C07_audit_trailing_white_space.
+
+(* ASCII white space directly behind the first "msg=" is ignored as well (it is not part of RawData) *)
+Theorem C07_audit_white_space_after_msg : forall (type_of : str -> option BinNums.N) (l : str) (i : nat) (ws : str),
+  go_index l msg_token = Some i -> all_space ws = true ->
+  parse_log_line type_of (firstn (i + 4) l ++ ws ++ skipn (i + 4) l) = parse_log_line type_of l.
+Proof. exact parse_log_line_ws_after_msg. Qed.
+Print Assumptions C07_audit_white_space_after_msg.
+
+(* Padding IN FRONT of the line is not ignored: with one more byte x before "type=" the type name is read
+   one byte late, as "=" ++ T; the line is accepted iff THAT is a type name (it then carries that type), and
+   is rejected with the message-type error when it is not (for the library's table: always, short of an
+   "=...[n]" form). *)
+Theorem C07_audit_leading_byte_shifts_type :
+  forall (type_of : str -> option BinNums.N) x T lead s1 s2 s3 b trail,
+  ~ In c_eq T ->
+  (forall t sec msec sq,
+     get_type type_of (c_eq :: T) = TyOk t -> all_space lead = true -> all_space trail = true ->
+     parse_int 64%N s1 = NumOk sec -> parse_int 64%N s2 = NumOk msec -> parse_uint 32%N s3 = NumOk sq -> clean_end b ->
+     parse_log_line type_of (x :: type_token ++ T ++ c_sp :: msg_token ++ lead ++ header_text s1 s2 s3 ++ b ++ trail)
+     = POk (mkMsg t sec msec sq (index_of_message (c_rparen :: b)) (header_text s1 s2 s3 ++ b))) /\
+  (get_type type_of (c_eq :: T) = TyErr ->
+   parse_log_line type_of (x :: type_token ++ T ++ c_sp :: msg_token ++ lead ++ header_text s1 s2 s3 ++ b ++ trail)
+   = PErrType).
+Proof. exact leading_byte_shifts_type. Qed.
+Print Assumptions C07_audit_leading_byte_shifts_type.
+
+(* no slice expression of ParseLogLine / GetAuditMessageType / Parse / parseAuditHeader is ever out of range *)
+Theorem C07_audit_parser_never_panics : forall (type_of : str -> option BinNums.N) (l : str),
+  parse_log_line type_of l <> PPanic.
+Proof. exact parse_log_line_never_panics. Qed.
+Print Assumptions C07_audit_parser_never_panics.
+
+(* The empty line and the blank line.  parseAuditLogs skips exactly the line "" (Gen/AuditProg.v's emptiness
+   test is  line == "" : [audit_is_empty]).  The audit-log ingester hands lines over WITH their newline, so an
+   empty line of the log arrives as "\n": that is not "", it is handed to the parser, the parser rejects it
+   (no "msg="), and the generated parseAuditLogs ends with the parse error showing that line - for "\n" and
+   for every non-empty line of ASCII white space. *)
+Theorem C07_audit_blank_line_not_skipped :
+  forall (type_of : str -> option BinNums.N) (ws : str), ws <> [] -> all_space ws = true ->
+  audit_is_empty ws = false /\ parse_log_line type_of ws = PErrHeader /\
+  audit_line_fate type_of ws = LStops PErrHeader /\ audit_line_fate type_of [] = LSkipped.
+Proof. exact white_line_fate. Qed.
+Print Assumptions C07_audit_blank_line_not_skipped.
+
+Theorem C07_audit_blank_line_stops_from_source :
+  forall (event cerr login AS : Type) (type_of : str -> option BinNums.N) (mtype : amsg -> nat)
+         (coalesce : list amsg -> option event) (old : event -> bool)
+         (audit : AS -> event -> AS * option cerr) (rlogin : AS -> login -> AS * option cerr)
+         (csess clogins : AS -> AuditIR.tmv -> AS) (dur : BinNums.Z -> nat)
+         (mx tmo now : nat) (ws : str) (p : AuditProc.pst str amsg event cerr AS),
+  ws <> [] -> all_space ws = true ->
+  AuditIR.parser_step_gen str amsg event cerr login AS audit_is_empty (parse_opt type_of) a_seq mtype coalesce old
+                          audit rlogin csess clogins dur AuditProg.gen_audit (mx, tmo) now ws p =
+  Some (AuditProc.set_perr str amsg event cerr AS ws (AuditProc.consume str amsg event cerr AS ws p)).
+Proof. exact white_line_stops_from_source. Qed.
+Print Assumptions C07_audit_blank_line_stops_from_source.
+
+Theorem C07_audit_empty_line_skipped_from_source :
+  forall (event cerr login AS : Type) (type_of : str -> option BinNums.N) (mtype : amsg -> nat)
+         (coalesce : list amsg -> option event) (old : event -> bool)
+         (audit : AS -> event -> AS * option cerr) (rlogin : AS -> login -> AS * option cerr)
+         (csess clogins : AS -> AuditIR.tmv -> AS) (dur : BinNums.Z -> nat)
+         (mx tmo now : nat) (p : AuditProc.pst str amsg event cerr AS),
+  AuditIR.parser_step_gen str amsg event cerr login AS audit_is_empty (parse_opt type_of) a_seq mtype coalesce old
+                          audit rlogin csess clogins dur AuditProg.gen_audit (mx, tmo) now [] p =
+  Some (AuditProc.consume str amsg event cerr AS [] p).
+Proof. exact empty_line_skipped_from_source. Qed.
+Print Assumptions C07_audit_empty_line_skipped_from_source.
+
+(* concrete runs; a three-entry table stands in for the library's *)
+Definition c07_tbl (n : str) : option BinNums.N :=
+  if seqb n (s2l "SYSCALL") then Some 1300%N else if seqb n (s2l "USER_CMD") then Some 1123%N
+  else if seqb n (s2l "EOE") then Some 1320%N else None.
+
+Example C07_audit_example_newline :
+  let l := s2l "type=SYSCALL msg=audit(1690000000.123:4242): arch=c000003e syscall=59 success=yes" in
+  parse_log_line c07_tbl (l ++ [nl]) = parse_log_line c07_tbl l /\
+  parse_log_line c07_tbl (l ++ s2l " " ++ ["013"%char; nl]) = parse_log_line c07_tbl l /\
+  parse_log_line c07_tbl l =
+    POk (mkMsg 1300%N 1690000000%Z 123%Z 4242%N 1%Z (s2l "audit(1690000000.123:4242): arch=c000003e syscall=59 success=yes")) /\
+  time_unix 1690000000%Z 123%Z = (1690000000, 123000000)%Z.
+Proof. vm_compute. repeat split; reflexivity. Qed.
+
+(* white space behind "msg=" is ignored; in front of "type=" or between the type and "msg=" it breaks the line *)
+Example C07_audit_example_paddings :
+  parse_log_line c07_tbl (s2l "type=EOE msg=  audit(1.002:3): ") = parse_log_line c07_tbl (s2l "type=EOE msg=audit(1.002:3): ") /\
+  parse_log_line c07_tbl (s2l "type=EOE msg=audit(1.002:3): ") = POk (mkMsg 1320%N 1%Z 2%Z 3%N 1%Z (s2l "audit(1.002:3):")) /\
+  parse_log_line c07_tbl (s2l " type=EOE msg=audit(1.002:3): ") = PErrType /\
+  parse_log_line c07_tbl (s2l "type=EOE  msg=audit(1.002:3): ") = PErrType /\
+  parse_log_line c07_tbl [nl] = PErrHeader /\ audit_line_fate c07_tbl [nl] = LStops PErrHeader /\
+  audit_line_fate c07_tbl [] = LSkipped.
+Proof. vm_compute. repeat split; reflexivity. Qed.
+
+(* the modelled domain: a no-break space (0xC2 0xA0) at the end of the record is where strings.TrimSpace
+   leaves ASCII; the model says so instead of guessing - and says the same with a newline appended *)
+Example C07_audit_example_unmodelled :
+  let l := s2l "type=EOE msg=audit(1.002:3): x" ++ ["194"%char; "160"%char] in
+  parse_log_line c07_tbl l = PUnmodelled /\ parse_log_line c07_tbl (l ++ [nl]) = PUnmodelled.
+Proof. vm_compute. split; reflexivity. Qed.
